@@ -439,7 +439,8 @@ def same_seq(got, exp_objs):
 
 
 def observe(real, view, probes):
-    """Evaluate the observation clauses; return (list of (aspect, detail)), n_checked dict."""
+    """Evaluate the observation clauses on the real objects; returns a list of (aspect, detail).
+    The derived observations are judged only when the two stores agree with the view."""
     U, P = real.U, real.P
     bad = []
     exp_objs = [U[i] for i in view.objs]
@@ -450,69 +451,87 @@ def observe(real, view, probes):
         return len(got) == len(exp_items) and all(
             gk == ek and (gv is ev or gv == ev) for (gk, gv), (ek, ev) in zip(got, exp_items))
 
+    def stage(aspect, fn):
+        try:
+            fn()
+        except Exception as e:                     # noqa  -- an observation must not raise
+            bad.append((aspect, "[raises:%s] observation raised %s: %s" % (type(e).__name__, type(e).__name__, e)))
+
     # -- the two stores: list view and name mapping ---------------------------------
-    proxy = P.objects
-    got_list = list(proxy)
-    if not same_seq(got_list, exp_objs):
-        bad.append(("view", "list(objects)=%r expected %r" % (got_list, exp_objs)))
-    got_names = list(dict(P.names).items())
-    if named:
-        if not items_ok(got_names):
-            bad.append(("view", "names=%r expected %r" % (got_names, exp_items)))
-    else:
-        # not declared by name: the mapping is empty (or at least describes the same objects)
-        if got_names and not same_seq([v for _, v in got_names], exp_objs):
-            bad.append(("view", "names=%r but objects are not named; objs %r" % (got_names, exp_objs)))
-    if real.held is not None:
+    def st_view():
+        got_list = list(P.objects)
+        if not same_seq(got_list, exp_objs):
+            bad.append(("view", "[objs] list(objects)=%r expected %r" % (got_list, exp_objs)))
+        got_names = list(dict(P.names).items())
+        if named:
+            if not items_ok(got_names):
+                bad.append(("view", "[names] names=%r expected %r" % (got_names, exp_items)))
+        elif got_names and not same_seq([v for _, v in got_names], exp_objs):
+            # not declared by name: the mapping is empty (or at least describes the same objects)
+            bad.append(("view", "[names] names=%r but objects are not named; objs %r" % (got_names, exp_objs)))
+
+    def st_proxy():
         hl = list(real.held)
         if not same_seq(hl, exp_objs):
-            bad.append(("proxy", "held proxy list=%r expected %r" % (hl, exp_objs)))
+            bad.append(("proxy", "[held] held proxy list=%r expected %r" % (hl, exp_objs)))
+
+    stage("view", st_view)
+    if real.held is not None:
+        stage("proxy", st_proxy)
     if bad:
         return bad
+
     # -- derived observations --------------------------------------------------------
-    its, ks, vs = list(proxy.items()), list(proxy.keys()), list(proxy.values())
-    if named:
-        if not items_ok(its) or ks != [k for k, _ in exp_items] or not same_seq(vs, exp_objs):
-            bad.append(("items", "items()=%r keys()=%r values()=%r expected %r" % (its, ks, vs, exp_items)))
-        for k, v in exp_items:
+    def st_items():
+        proxy = P.objects
+        its, ks, vs = list(proxy.items()), list(proxy.keys()), list(proxy.values())
+        if named:
+            if not items_ok(its) or ks != [k for k, _ in exp_items] or not same_seq(vs, exp_objs):
+                bad.append(("items", "[items] items()=%r keys()=%r values()=%r expected %r" % (its, ks, vs, exp_items)))
+        elif not same_seq([v for _, v in its], exp_objs) or not same_seq(vs, exp_objs) or len(ks) != len(exp_objs):
+            bad.append(("items", "[items] items()=%r values()=%r expected objects %r" % (its, vs, exp_objs)))
+
+    def st_getitem():
+        proxy = P.objects
+        for k, v in (exp_items if named else list(enumerate(exp_objs))):
             try:
                 g = proxy[k]
-            except Exception as e:        # noqa
+            except Exception as e:                 # noqa
                 g = e
             if not (g is v or g == v):
-                bad.append(("getitem", "objects[%r]=%r expected %r" % (k, g, v)))
+                bad.append(("getitem", "[getitem] objects[%r]=%r expected %r" % (k, g, v)))
                 break
-    else:
-        if not same_seq([v for _, v in its], exp_objs) or not same_seq(vs, exp_objs) or len(ks) != len(exp_objs):
-            bad.append(("items", "items()=%r values()=%r expected objects %r" % (its, vs, exp_objs)))
-        for i, v in enumerate(exp_objs):
-            g = proxy[i]
-            if not (g is v or g == v):
-                bad.append(("getitem", "objects[%d]=%r expected %r" % (i, g, v)))
-                break
-    rng = P.get_range()
-    rl = list(rng.items())
-    if named:
-        if not items_ok(rl):
-            bad.append(("get_range", "get_range()=%r expected %r" % (rl, exp_items)))
-    else:
-        if not same_seq([v for _, v in rl], exp_objs):
-            bad.append(("get_range", "get_range()=%r expected objects %r" % (rl, exp_objs)))
+
+    def st_range():
+        rl = list(P.get_range().items())
+        if named:
+            if not items_ok(rl):
+                bad.append(("get_range", "[range] get_range()=%r expected %r" % (rl, exp_items)))
+        elif not same_seq([v for _, v in rl], exp_objs):
+            bad.append(("get_range", "[range] get_range()=%r expected objects %r" % (rl, exp_objs)))
+
     # -- accept / reject of probe assignments ----------------------------------------
-    if probes:
+    def st_accepts():
         real.new_round()
         for u in probes:
             want = u in view.objs
             got = real.accepts([U[u]] if real.is_list else U[u])
             if got != want:
-                bad.append(("accepts", "assignment of %s (member=%s) %s" % (
+                bad.append(("accepts", "[%s] assignment of %s (member=%s) %s" % (
+                    "nonmember-accepted" if got else "member-rejected",
                     "[u%d]" % u if real.is_list else "u%d" % u, want, "accepted" if got else "rejected")))
-                break
+                return
         if real.is_list and len(view.objs) >= 2:
             if not real.accepts([U[view.objs[-1]], U[view.objs[0]]]):
-                bad.append(("accepts", "assignment of two members [last, first] rejected"))
-            if real.accepts([U[view.objs[0]], U[NEVER]]):
-                bad.append(("accepts", "assignment of [member, non-member] accepted"))
+                bad.append(("accepts", "[member-rejected] assignment of two members [last, first] rejected"))
+            elif real.accepts([U[view.objs[0]], U[NEVER]]):
+                bad.append(("accepts", "[nonmember-accepted] assignment of [member, non-member] accepted"))
+
+    stage("items", st_items)
+    stage("getitem", st_getitem)
+    stage("get_range", st_range)
+    if probes:
+        stage("accepts", st_accepts)
     return bad
 
 
@@ -532,7 +551,7 @@ def run_history(cfg, ops, U=None):
     try:
         real = Real(cfg, U)
     except Exception as e:                         # noqa
-        return [(-1, "init", decl, "raises", "constructing the class raised %r" % (e,))], counts
+        return [(-1, "init", decl, "raises", "[%s] constructing the class raised %r" % (type(e).__name__, e))], counts
     seen = {0, 1, 2, NEVER}
     probes_now = sorted(seen) if (mode == "interleaved" or not ops) else None
     bad = observe(real, view, probes_now)
@@ -552,24 +571,24 @@ def run_history(cfg, ops, U=None):
             res = real.do(op)
         except Exception as e:                     # noqa
             ck("C18/%s/raises" % meth)
-            findings.append((step, op[0], style, "raises", "%s raised %s: %s" % (op_text(op), type(e).__name__, e)))
+            findings.append((step, op[0], style, "raises", "[%s] %s raised %s: %s" % (type(e).__name__, op_text(op), type(e).__name__, e)))
             return findings, counts
         ck("C18/%s/raises" % meth)
         if has_res:
             ck("C18/%s/result" % meth)
             e_obj = U[exp]
             if not (res is e_obj or (res is not None and res == e_obj)):
-                findings.append((step, op[0], style, "result", "%s returned %r, removed object is %r" % (op_text(op), res, e_obj)))
+                findings.append((step, op[0], style, "result", "[%s] %s returned %r, removed object is %r" % ("None" if res is None else "other", op_text(op), res, e_obj)))
         effective = view.snapshot() != before
         d1, d2 = len(real.log_changed) - n1, len(real.log_all) - n2
         ck("C18/%s/watchers" % meth)
         if effective:
             if d1 != 1 or d2 != 1:
                 findings.append((step, op[0], style, "watchers",
-                                 "%s notified the changes-only watcher %d time(s) and the every-set watcher %d time(s); expected once" % (op_text(op), d1, d2)))
+                                 "[%s] %s notified the changes-only watcher %d time(s) and the every-set watcher %d time(s); expected once" % (_cnt(d1, d2), op_text(op), d1, d2)))
         elif d1 > 1 or d2 > 1:
             findings.append((step, op[0], style, "watchers",
-                             "%s (no change of the view) notified %d/%d times" % (op_text(op), d1, d2)))
+                             "[%s] %s (no change of the view) notified %d/%d times" % (_cnt(d1, d2), op_text(op), d1, d2)))
         last = step == len(ops) - 1
         probes_now = sorted(seen) if (mode == "interleaved" or last) else None
         bad = observe(real, view, probes_now)
@@ -581,10 +600,15 @@ def run_history(cfg, ops, U=None):
             # the changes-only watcher compares old and new view: not judged on a diverged view
             findings = [f for f in findings if not (f[0] == step and f[3] == "watchers")]
         for a, d in bad:
-            findings.append((step, op[0], style, a, "after %s: %s" % (op_text(op), d)))
+            findings.append((step, op[0], style, a, "%s after %s: %s" % (d.split(" ", 1)[0], op_text(op), d.split(" ", 1)[1])))
         if any(f[3] in ("view", "proxy", "raises") for f in findings) or bad:
             return findings, counts
     return findings, counts
+
+
+def _cnt(d1, d2):
+    f = lambda d: "0" if d == 0 else ("1" if d == 1 else "many")
+    return "changed-only:%s,every-set:%s" % (f(d1), f(d2))
 
 
 def _objs_of(op):
@@ -652,7 +676,9 @@ def _worker(task):
             by.setdefault((step, opk, style, aspect), []).append(detail)
         for (step, opk, style, aspect), details in by.items():
             h = hist[:step + 1]
-            key = (aspect, opk, style)
+            what = "+".join(sorted({d[1:d.index("]")] for d in details}))
+            details = [d[d.index("]") + 2:] for d in details]
+            key = (aspect, opk, style, what)
             rank = (len(h), cfg_rank(cfg), first if first is not None else -1, ncases)
             if key not in cands or rank < cands[key][0]:
                 cands[key] = (rank, cfg, h, details)
@@ -694,6 +720,7 @@ def make_replay(cfg, hist, aspect, clause, witness):
     src = hdr + "import logging, warnings\nimport param\nwarnings.simplefilter('ignore')\n"
     src += "param.parameterized.get_logger().setLevel(logging.CRITICAL + 1)\n"
     src += FAMILY_SRC[family]
+    head, src = src, ""
     src += "class S(param.Parameterized):\n    x = param.%s(objects=%s)\n" % (kind, init)
     src += "s = S()\nP = %s\n" % ("s.param.x" if level == "inst" else "S.param.x")
     src += "log_changed, log_all = [], []\n"
@@ -765,21 +792,31 @@ def make_replay(cfg, hist, aspect, clause, witness):
         src += "if IS_LIST and len(exp_objs) >= 2:\n"
         src += "    try:\n        s.x = [exp_objs[-1], exp_objs[0]]\n    except Exception:\n        problems.append('two members rejected')\n"
         src += "    try:\n        s.x = [exp_objs[0], U[%d]]\n        problems.append('[member, non-member] accepted')\n    except Exception:\n        pass\n" % NEVER
-    elif aspect == "raises":
-        # the failing operation is the last line of the history: re-run guarded
-        src = src.replace("\n".join(lines) + "\n", "\n".join(lines[:-1] + ["try:", "    " + lines[-1], "except Exception as e:", "    print('REPRODUCED: %s raised %r' % (" + repr(op_text(hist[-1])) + ", e)); sys.exit(1)"]) + "\n")
+    body = "".join("    " + ln + "\n" for ln in src.splitlines())
+    src = head + "try:\n" + body
+    src += ("except Exception as e:      # no operation or observation in the statement's scope may raise\n"
+            "    print('REPRODUCED: raised %s: %s' % (type(e).__name__, e)); sys.exit(1)\n")
     src += "if problems:\n    print('REPRODUCED: ' + '; '.join(problems)); sys.exit(1)\n"
     src += "print('NOT-REPRODUCED'); sys.exit(0)\n"
     return src
 
 
 def plan(tier, seed):
-    """list of (cfg, depth).  cfg = (kind, decl, level, proxy, family, mode)."""
+    """list of (cfg, depth).  cfg = (kind, decl, level, proxy, family, mode).
+    core  : {Selector, ListSelector} x {list, dict}, instance-level, fresh proxy, ints, probes every step
+    near  : core with exactly one other dimension changed (class-level / held proxy / str / named objects /
+            probes only at the end)
+    wide  : the full product of the dimensions"""
     kinds, decls = ("Selector", "ListSelector"), ("list", "dict")
-    core, wide = [], []
+    core, near, wide = [], [], []
     for kind in kinds:
         for decl in decls:
             core.append((kind, decl, "inst", "fresh", "int", "interleaved"))
+            near.append((kind, decl, "class", "fresh", "int", "interleaved"))
+            near.append((kind, decl, "inst", "held", "int", "interleaved"))
+            near.append((kind, decl, "inst", "fresh", "str", "interleaved"))
+            near.append((kind, decl, "inst", "fresh", "obj", "interleaved"))
+            near.append((kind, decl, "inst", "fresh", "int", "final"))
     for kind in kinds:
         for decl in decls:
             for level in ("inst", "class"):
@@ -787,16 +824,18 @@ def plan(tier, seed):
                     for family in ("int", "str", "obj"):
                         for mode in ("final", "interleaved"):
                             cfg = (kind, decl, level, proxy, family, mode)
-                            if cfg not in core:
+                            if cfg not in core and cfg not in near:
                                 wide.append(cfg)
-    if tier == "quick":
-        return [(c, 3) for c in core] + [(c, 2) for c in wide]
-    return [(c, 4) for c in core] + [(c, 3) for c in wide]
+    d = DEPTHS[tier]
+    return [(c, d[0]) for c in core] + [(c, d[1]) for c in near] + [(c, d[2]) for c in wide]
+
+
+DEPTHS = {"quick": (3, 2, 1), "thorough": (4, 3, 2)}
 
 
 def run(tier, seed):
     pl = plan(tier, seed)
-    dcore, dwide = (3, 2) if tier == "quick" else (4, 3)
+    dcore, dnear, dwide = DEPTHS[tier]
     B = Bounded(
         PROP,
         rule=("one case = one history of style-consistent objects-mutations (every prefix is observed too), run on a "
@@ -807,10 +846,12 @@ def run(tier, seed):
               "compared with the view.  distinct = distinct (configuration, history)."),
         bound=("all histories of exactly %d operations (all shorter ones as prefixes) on the 4 core configurations "
                "{Selector,ListSelector} x {list-declared,dict-declared} (instance-level Parameter, fresh proxy per "
-               "operation, int objects, probe assignments after every step); all histories of %d operations on the "
-               "other 92 configurations of kind x declaration x {instance,class}-level x {fresh,held} proxy x "
+               "operation, int objects, probe assignments after every step); all histories of %d operations on the 20 "
+               "configurations that differ from a core one in one dimension (class-level Parameter / one held proxy / "
+               "str objects / named objects / probes only at the end); all histories of %d operation(s) on the other "
+               "72 configurations of kind x declaration x {instance,class}-level x {fresh,held} proxy x "
                "{int,str,named-object} objects x {probes after every step, probes only at the end}; 3 initial objects, "
-               "alphabet of <= 21 operations per state" % (dcore, dwide)))
+               "alphabet of <= 21 operations per state" % (dcore, dnear, dwide)))
     _quiet()
     tasks = []
     for cfg, depth in pl:
@@ -834,13 +875,16 @@ def run(tier, seed):
                 if key not in cands or val[0] < cands[key][0]:
                     cands[key] = val
     B._distinct = set(range(ndistinct))
+    # an aspect that already fails on the freshly declared Selector is reported there only
+    broken_at_init = {k[0] for k in cands if k[1] == "init"}
+    cands = {k: v for k, v in cands.items() if k[1] == "init" or k[0] not in broken_at_init}
     for key in sorted(cands):
-        aspect, opk, style = key
+        aspect, opk, style, what = key
         rank, cfg, hist, details = cands[key]
         kind, decl, level, proxy, family, mode = cfg
         clause = clause_of(aspect, opk)
-        witness = "decl=%s op=%s aspect=%s kind=%s level=%s proxy=%s objs=%s probes=%s hist=%s" % (
-            style, OPNAME.get(opk, opk), aspect, kind, level, proxy, family, mode, ";".join(op_text(o) for o in hist) or "-")
+        witness = "decl=%s op=%s aspect=%s what=%s kind=%s level=%s proxy=%s objs=%s probes=%s hist=%s" % (
+            style, OPNAME.get(opk, opk), aspect, what, kind, level, proxy, family, mode, ";".join(op_text(o) for o in hist) or "-")
         B.violation(clause=clause, witness=witness, detail=" | ".join(details),
                     replay=make_replay(cfg, hist, aspect, clause, witness))
     B.note("style-inconsistent operations (append/insert/extend/[i]= on dict-declared objects, key operations on "
